@@ -157,4 +157,72 @@ theorem inflate_length (ngapA : List Nat) (gapc : UInt8) (row : Bytes) (h : ngap
     simp only [List.headD_cons, List.tail_cons, List.length_append, List.length_replicate, List.sum_cons]
     rw [inflateGo_length gapc ns row (by omega), ← hl, List.take_length]; omega
 
+/-! ## the insert-region widths partition the columns -/
+
+theorem insertWidths_fold (rf : Bytes) (acc : List Nat) (n : Nat) :
+    let r := rf.foldl (fun (st : List Nat × Nat) c => if rfIsGap c then (st.1, st.2 + 1) else (st.2 :: st.1, 0)) (acc, n)
+    r.1.length = acc.length + clenOf rf ∧ r.1.sum + r.2 + clenOf rf = acc.sum + n + rf.length := by
+  induction rf generalizing acc n with
+  | nil => simp [clenOf]
+  | cons c cs ih =>
+    simp only [List.foldl_cons]
+    by_cases hg : rfIsGap c = true
+    · have := ih acc (n + 1)
+      simp only [hg, ↓reduceIte]
+      simp only [clenOf, List.filter_cons, hg, Bool.not_true, Bool.false_eq_true, ↓reduceIte, List.length_cons] at this ⊢
+      omega
+    · have hg' : rfIsGap c = false := by simpa using hg
+      have := ih (n :: acc) 0
+      simp only [hg', Bool.false_eq_true, ↓reduceIte]
+      simp only [clenOf, List.filter_cons, hg', Bool.not_false, ↓reduceIte, List.length_cons, List.sum_cons] at this ⊢
+      omega
+
+/-- `clen + 1` insert regions (before the first, between, after the last consensus column) … -/
+theorem insertWidths_length (rf : Bytes) : (insertWidths rf).length = clenOf rf + 1 := by
+  have := (insertWidths_fold rf [] 0).1
+  simp only [insertWidths, List.length_reverse, List.length_cons] at this ⊢
+  simpa using this
+
+/-- … whose widths, together with the consensus columns, account for every column of the alignment exactly once -/
+theorem insertWidths_sum (rf : Bytes) : (insertWidths rf).sum + clenOf rf = rf.length := by
+  have := (insertWidths_fold rf [] 0).2
+  simp only [insertWidths, List.sum_reverse, List.sum_cons] at this ⊢
+  simp at this; omega
+
+theorem inflateGo_mem (gapc : UInt8) (ns : List Nat) (row : Bytes) : ∀ c ∈ inflateGo gapc ns row, c ∈ row ∨ c = gapc := by
+  induction row generalizing ns with
+  | nil => simp [inflateGo]
+  | cons a r ih =>
+    intro c hc
+    simp only [inflateGo, List.mem_cons, List.mem_append, List.mem_replicate] at hc
+    rcases hc with rfl | ⟨_, rfl⟩ | h
+    · simp
+    · simp
+    · rcases ih ns.tail c h with h | h
+      · left; simp [h]
+      · right; exact h
+
+/-- every character of a merged row is a character of the input row or the gap character: merging adds gaps and nothing else -/
+theorem inflate_mem (ngapA : List Nat) (gapc : UInt8) (row : Bytes) : ∀ c ∈ inflate ngapA gapc row, c ∈ row ∨ c = gapc := by
+  intro c hc
+  simp only [inflate, List.mem_append, List.mem_replicate] at hc
+  rcases hc with ⟨_, rfl⟩ | h
+  · right; rfl
+  · exact inflateGo_mem gapc ngapA.tail row c h
+
+/-- `maxgap[cpos] = ESL_MAX(maxgap[cpos], ngap)`: the recorded width of a region is at least the width in either argument -/
+theorem maxWidths_ge (a b : List Nat) (h : a.length = b.length) (i : Nat) :
+    a.getD i 0 ≤ (maxWidths a b).getD i 0 ∧ b.getD i 0 ≤ (maxWidths a b).getD i 0 := by
+  induction a generalizing b i with
+  | nil => cases b <;> simp_all [maxWidths]
+  | cons x xs ih =>
+    cases b with
+    | nil => simp at h
+    | cons y ys =>
+      cases i with
+      | zero => simp [maxWidths]; omega
+      | succ i =>
+        have := ih ys (by simpa using h) i
+        simpa [maxWidths] using this
+
 end EaselModel.Miniapps.Ali
